@@ -103,24 +103,33 @@ Cfgs == CASE Family = "sort" -> SortCfgs [] Family = "group" -> GroupCfgs [] Fam
 Rows(id) == CASE Family = "sort" -> SortRows(id) [] Family = "group" -> GroupRows(id) [] Family = "uniq" -> UniqRows(id)
               [] Family = "split" -> SplitRows(id)
 
-VARIABLES cfg, input, st, phase, pulled
-vars == <<cfg, input, st, phase, pulled>>
+\* the values may be spread over Files input files (lib.rs: the loop over the file operands around read_input); fileNo is the file being read.
+\* DevBreakEndsFileOnly: a Break ends the file being read only, the next file is opened and read (the pinned tree; repaired in /repo)
+CONSTANTS Files, DevBreakEndsFileOnly
+VARIABLES cfg, input, st, phase, pulled, fileNo
+vars == <<cfg, input, st, phase, pulled, fileNo>>
+\* where the file boundaries fall changes nothing the machine does (unless the deviation is on): fileNo is hidden from the fingerprint
+View == IF DevBreakEndsFileOnly THEN vars ELSE <<cfg, input, st, phase, pulled>>
 
 Init == /\ cfg \in Cfgs /\ (Live => P!Streaming(cfg) /\ cfg.take # -1 /\ ~cfg.unique)
-        /\ input = <<>> /\ st = P!StInit(cfg) /\ phase = "reading" /\ pulled = 0
+        /\ input = <<>> /\ st = P!StInit(cfg) /\ phase = "reading" /\ pulled = 0 /\ fileNo = 1
 Feed == /\ phase = "reading" /\ (Live \/ Len(input) < MaxRows)
         /\ \E v \in Rows(Len(input) + 1) :
              /\ (Live => v = IF cfg.split = Self THEN Arr(<<El(1), El(1)>>)                        \* qualifying values only
                                ELSE Row(<<<<nG, S(<<97>>)>>, <<nItems, Arr(<<El(1), El(1)>>)>>>>))
              /\ LET r == P!FeedValue(cfg, st, v, 0, 0) IN
                 /\ st' = r
-                /\ phase' = IF r.dec = "Break" THEN "completing" ELSE "reading"
+                /\ LET nextFile == r.dec = "Break" /\ DevBreakEndsFileOnly /\ fileNo < Files IN
+                   /\ phase' = IF r.dec = "Break" /\ ~nextFile THEN "completing" ELSE "reading"
+                   /\ fileNo' = IF nextFile THEN fileNo + 1 ELSE fileNo
              /\ input' = IF Live THEN input ELSE Append(input, v)
              /\ pulled' = IF Live THEN pulled ELSE pulled + 1
         /\ UNCHANGED cfg
-EndOfInput == phase = "reading" /\ ~Live /\ phase' = "completing" /\ UNCHANGED <<cfg, input, st, pulled>>
-Complete == phase = "completing" /\ st' = P!Complete(cfg, st) /\ phase' = "done" /\ UNCHANGED <<cfg, input, pulled>>
-Next == Feed \/ EndOfInput \/ Complete
+\* the end of a file that is not the last: the next one is opened
+EndOfFile == phase = "reading" /\ ~Live /\ fileNo < Files /\ fileNo' = fileNo + 1 /\ UNCHANGED <<cfg, input, st, phase, pulled>>
+EndOfInput == phase = "reading" /\ ~Live /\ phase' = "completing" /\ UNCHANGED <<cfg, input, st, pulled, fileNo>>
+Complete == phase = "completing" /\ st' = P!Complete(cfg, st) /\ phase' = "done" /\ UNCHANGED <<cfg, input, pulled, fileNo>>
+Next == Feed \/ EndOfFile \/ EndOfInput \/ Complete
 Spec == Init /\ [][Next]_vars
 LiveSpec == Spec /\ WF_vars(Next)
 
